@@ -14,7 +14,7 @@ ASSUMPTIONS = [
 
 def harnesses(tier, seed):
     hs, skipped = [], []
-    gr = schemas.leaf_schemas() + schemas.depth2(["int", "mix"] if tier == "quick" else None) + schemas.extras()
+    gr = schemas.leaf_schemas() + schemas.depth2(["int", "mix"] if tier == "quick" else schemas.D2_LEAVES) + schemas.extras()
     field_too = {"L_int", "L_date", "L_mix", "L_nt", "L_td", "L_gen_int", "L_lit", "L_color", "L_timezone", "L_plain"}
     for s in gr:
         if "stype" in s.tags:
